@@ -744,6 +744,9 @@ type seg struct {
 
 type recipe struct {
 	Segs []seg `json:"segs"`
+	// Tail: a last short word without a line break after it (files often end without a final newline, and the last
+	// word of an input is flushed by a different piece of code than every other word).
+	Tail string `json:"tail,omitempty"`
 }
 
 func (r recipe) build(c *Classifier) []byte {
@@ -769,6 +772,7 @@ func (r recipe) build(c *Classifier) []byte {
 			buf.WriteByte('\n')
 		}
 	}
+	buf.WriteString(r.Tail)
 	return buf.Bytes()
 }
 
@@ -812,6 +816,9 @@ func (r recipe) describe() string {
 		case "raw":
 			parts = append(parts, fmt.Sprintf("raw(%d bytes)", len(s.Raw)))
 		}
+	}
+	if r.Tail != "" {
+		parts = append(parts, fmt.Sprintf("tail(%q, no final newline)", r.Tail))
 	}
 	return strings.Join(parts, " + ")
 }
@@ -911,6 +918,9 @@ func genRecipe(t *rapid.T, thr float64) recipe {
 			r.Segs = append(r.Segs, genDocSeg(t, thr, false))
 		}
 	}
+	if lib.IntN(t, 0, 4, "tail") == 0 {
+		r.Tail = lib.PickStr(t, []string{"a", "2", "b", "x", "end", "v2", "it", "\u00e9", "License"}, "tailWord")
+	}
 	return r
 }
 
@@ -933,6 +943,9 @@ func recipeClasses(r recipe) []string {
 			}
 			if s.TruncTail > 0 {
 				cls["truncated-tail"] = true
+			}
+			if r.Tail != "" {
+				cls["no-final-newline"] = true
 			}
 			if s.EchoHead > 0 || s.EchoTail > 0 {
 				cls["echoed-heading-or-footer"] = true
